@@ -2,7 +2,7 @@
 
 Real traces are produced by the real chain driver and written by the real create_main_run_output; then
   * every byte prefix (quick: every prefix of the small file, stride + tail of the larger one) is handed to
-    write_map_results, write_consensus_results and write_topology_report: the outcome must be an exception or output
+    write_map_results (both map types), write_consensus_results (both weight types) and write_topology_report: the outcome must be an exception or output
     files byte-identical to those produced from the complete file;
   * the gzip member is taken apart (header / deflate body / 8-byte trailer), zlib is run on every body prefix to check
     the model's assumption (a prefix inflates to a prefix of the payload) and to PREDICT which prefixes are readable
@@ -24,6 +24,7 @@ from concurrent.futures import ProcessPoolExecutor
 from .. import coq, runs
 
 WORKERS = 6
+READERS = ("map", "consensus", "topology", "map-frequency", "consensus-counts")
 
 
 # ---------------------------------------------------------------- producing real trace files
@@ -57,6 +58,8 @@ def _reader_outcomes(in_file, outdir):
         ("map", lambda t, r: write_map_results(in_file, t, r)),
         ("consensus", lambda t, r: write_consensus_results(in_file, t, r)),
         ("topology", lambda t, r: write_topology_report(in_file, t)),
+        ("map-frequency", lambda t, r: write_map_results(in_file, t, r, map_type="frequency")),
+        ("consensus-counts", lambda t, r: write_consensus_results(in_file, t, r, weight_type="counts")),
     ]
     for name, fn in calls:
         t = os.path.join(outdir, name + "_table.tsv")
@@ -182,7 +185,7 @@ def check_trace(ctx, pool, path, tag, every_prefix, coq_cuts):
     payload = gzip.decompress(blob)
     hlen, body, trailer = split_member(blob)
     ctx.log("%s: %d bytes (header %d, body %d, trailer 8), payload %d bytes, %d chains, %d entries; full-file outcomes %s" % (tag, L, hlen, len(body), len(payload), len(written), sum(len(c["trace"]) for c in written.values()), [o[:12] for o in full]))
-    for name, o in zip(("map", "consensus", "topology"), full):
+    for name, o in zip(READERS, full):
         if o.startswith("E:"):
             ctx.broken_tie("reader %s fails on the complete trace %s (%s): cannot serve as reference" % (name, tag, o))
     if every_prefix:
@@ -199,7 +202,7 @@ def check_trace(ctx, pool, path, tag, every_prefix, coq_cuts):
     for n in lengths:
         outs = observed[n]
         region = "header" if n < hlen else ("body" if n < hlen + len(body) else "trailer")
-        for name, o, ref in zip(("map", "consensus", "topology"), outs, full):
+        for name, o, ref in zip(READERS, outs, full):
             ctx.count("%s:%s:%s" % (tag, region, o if o.startswith("E:") else "complete-result"))
             if not o.startswith("E:") and o != ref:
                 ctx.fail("C20:%s:partial-result:%s" % (name, region), "%s on the first %d of %d bytes produced output different from the complete file's, without an error" % (name, n, L), {"trace": tag, "prefix_length": n, "file_length": L, "reader": name, "file_hex": blob.hex() if L < 20000 else None})
